@@ -400,6 +400,16 @@ def main(pid: str, argv):
                        "broken": f"theories/Props/{pid}.v no longer checks (or forbidden vernacular: {forb})",
                        "log": props["log"]}, no_input=True)
 
+    # thorough tier: the independent checker re-checks the property file and everything it depends on
+    coqchk_info = None
+    if ok and ctx.tier == "thorough" and not ctx.replay:
+        rc, out, err = run(["coqchk", "-silent", "-o", "-Q", "theories", "Dyce", f"Dyce.Props.{pid}"], 3000, cwd=COQ)
+        summary = out[out.find("CONTEXT SUMMARY"):] if "CONTEXT SUMMARY" in out else (out + err)[-800:]
+        coqchk_info = {"exit": rc, "axioms_none": "* Axioms: <none>" in summary, "summary": " ".join(summary.split())[:600]}
+        if rc != 0 or not coqchk_info["axioms_none"]:
+            violation({"property": pid, "kind": "coqchk-failure",
+                       "broken": f"coqchk does not accept Dyce.Props.{pid} axiom-free", "log": summary}, no_input=True)
+
     # --replay: run one stored case and print the three answers
     if ctx.replay:
         payload = json.loads(Path(ctx.replay).read_text())
@@ -563,6 +573,8 @@ def main(pid: str, argv):
             cov[mod.UNITS_NAME] = sum(mod.units(c, r) for c, r in zip(cases, impl_res))
         except Exception:  # noqa
             pass
+    if coqchk_info is not None:
+        cov["coqchk"] = coqchk_info
     cov.update(stats)
     if hasattr(mod, "extra_coverage"):
         cov.update(mod.extra_coverage())
